@@ -104,6 +104,7 @@ class Sim:
             ev += [("remote", nid), ("local", nid)]
             if nid in self.nodes:
                 ev.append(("del", nid))
+                ev.append(("readd", nid))
                 s0, k0, _ = self.nodes[nid]
                 if k0 == "remote" and s0 not in self.extra:
                     ev.append(("addsdo", nid))
@@ -133,6 +134,15 @@ class Sim:
             self.nodes[nid] = (self.serial, k, node)
             self.all_nodes.append((self.serial, k, nid, node))
             for cid, tok in self._handlers(self.serial, k, nid):
+                self._ref_sub(cid, tok)
+        elif k == "readd":
+            # the node object that is already present is added again: detach + attach of the same object
+            nid = e[1]
+            s0, k0, node = self.nodes[nid]
+            for cid, tok in self._handlers(s0, k0, nid):
+                self._ref_unsub(cid, tok)
+            self.net.add_node(node)
+            for cid, tok in self._handlers(s0, k0, nid):
                 self._ref_sub(cid, tok)
         elif k == "addsdo":
             nid = e[1]
